@@ -36,8 +36,7 @@ def step (d : CD) (toks : List String) (impl : String) : CD × Res :=
   | some "cput" =>
     let key := xorKey (unhex (kv toks "id")) d.node
     let len := kvNat toks "len"
-    let v := genBytes len (kvNat toks "seed")
-    let x : Item := { be := beVal key, le := leVal key, len := len, val := fnv v }
+    let x : Item := { be := beVal key, le := leVal key, len := len, val := fnvGen len (kvNat toks "seed") }
     if ¬ dist d.le x < d.st.radius then
       (d, { model := "ok", tags := ["cput", "refused"], nontrivial := false })
     else
